@@ -83,6 +83,39 @@ def upper_bound(e, guards=(), depth=0):
     return None
 
 
+def is_negative(e, guards=(), depth=0):
+    """strictly negative for certain: -POS, a product of one such factor with POS ones, clamp(x, max=<negative>)"""
+    if depth > 8:
+        return False
+    v = const_number(e)
+    if v is not None:
+        return v < 0
+    if isinstance(e, ast.UnaryOp) and isinstance(e.op, ast.USub):
+        return sign_of(e.operand, guards) == POS
+    if isinstance(e, ast.BinOp) and isinstance(e.op, ast.Mult):
+        a, b = is_negative(e.left, guards, depth + 1), is_negative(e.right, guards, depth + 1)
+        if a and not b:
+            return sign_of(e.right, guards) == POS
+        if b and not a:
+            return sign_of(e.left, guards) == POS
+        return False
+    if isinstance(e, ast.Subscript):
+        return is_negative(e.value, guards, depth + 1)
+    if isinstance(e, ast.Call):
+        fe = e.func
+        last = fe.attr if isinstance(fe, ast.Attribute) else (fe.id if isinstance(fe, ast.Name) else "")
+        if last in ("clamp", "clip", "clamp_max"):
+            is_mod = isinstance(fe, ast.Attribute) and isinstance(fe.value, ast.Name) and fe.value.id == "torch"
+            rest = e.args[1:] if is_mod else e.args
+            hi = next((k.value for k in e.keywords if k.arg == "max"), None)
+            if hi is None and last == "clamp_max" and rest:
+                hi = rest[0]
+            if hi is None and len(rest) > 1:
+                hi = rest[1]
+            return hi is not None and is_negative(hi, guards, depth + 1)
+    return False
+
+
 def _prod_key(e):
     """a product as an ordered multiset of factor texts (a * b == b * a)"""
     from .astutil import product_factors
@@ -127,7 +160,7 @@ def _sign_of(e, guards, _memo):
     if v is not None:
         return POS if v > 0 else (NONNEG if v == 0 else ANY)
     t = norm_text(e) if isinstance(e, (ast.Name, ast.Attribute)) or (isinstance(e, ast.Subscript) and isinstance(e.value, ast.Attribute)) else ""
-    if t in POSITIVE_HYPER:
+    if t in POSITIVE_HYPER or (t and ("POS:" + t) in guards):
         return POS
     if isinstance(e, ast.Name) or isinstance(e, ast.Attribute):
         if t.endswith(".shape[-1]") or t in ("num_bins",):
@@ -141,6 +174,8 @@ def _sign_of(e, guards, _memo):
         if isinstance(e.op, ast.Add):
             return _add(sign_of(e.left, guards), sign_of(e.right, guards))
         if isinstance(e.op, ast.Mult):
+            if is_negative(e.left, guards) and is_negative(e.right, guards):
+                return POS
             return _mul(sign_of(e.left, guards), sign_of(e.right, guards))
         if isinstance(e.op, ast.Div):
             a, b = sign_of(e.left, guards), sign_of(e.right, guards)
